@@ -163,13 +163,15 @@ theorem C16_quiet_holds_no_lock (pl : Pid → Content) (s : State) (h : Reachabl
   rw [quiet_holds hq] at this
   simp at this
 
-/-- **Retry.** From *any* reachable state in which no creator is live (whatever earlier attempts left
-behind: a `.lock` file, a partial `.part` file, or a complete destination), a fresh creator `p` whose
+/-- **Retry.** From *any* reachable state in which no creator is live — every creator is finished, failed,
+killed, not started, or a cancelled waiter whose detached flock thread is still blocked (`passive`; this
+includes every state with all creators `quiet`) — whatever earlier attempts left
+behind (a `.lock` file, a partial `.part` file, or a complete destination), a fresh creator `p` whose
 operations all succeed runs to completion on its own: if the destination was absent it returns "created"
 and the destination holds exactly `p`'s complete payload; if it was present `p` returns through the
 existing-file handler and the destination is unchanged. A failed or killed attempt never blocks a later one. -/
 theorem C16_retry (pl : Pid → Content) (s : State) (h : Reachable pl s)
-    (hquiet : ∀ q, quiet (s.pc q) = true) (p : Pid) (hp : s.pc p = .idle) :
+    (hquiet : ∀ q, passive (s.pc q) = true) (p : Pid) (hp : s.pc p = .idle) :
     ∃ n s', run pl s (List.replicate n (Act.step p)) = some s' ∧
       ((s.dest = none ∧ s'.pc p = .doneCreated ∧ s'.destContent = some (pl p)) ∨
        (s.dest ≠ none ∧ s'.pc p = .doneExisting ∧ s'.destContent = s.destContent)) := by
@@ -278,6 +280,14 @@ example : ((run C16_payload State.init
     [.step 0, .step 0, .step 0, .step 0, .step 0, .crash 0]).map fun s =>
     (s.destContent, s.part.map s.content, s.lockName, s.pc 0, s.pc 5)) =
     some (none, some [1], some 0, .dead, .idle) := by decide
+
+
+/-- … and by a state in which a cancelled waiter's detached flock thread is still blocked (4 is `zombieWait`)
+after the lock holder 0 was killed mid-write: everybody is `passive`, nobody `quiet`-only -/
+example : ((run C16_payload State.init
+    [.step 0, .step 0, .step 0, .step 0, .step 0, .step 4, .step 4, .cancel 4, .crash 0]).map fun s =>
+    (s.pc 0, s.pc 4, s.pc 5, passive (s.pc 0) && passive (s.pc 4) && passive (s.pc 5), quiet (s.pc 4))) =
+    some (.dead, .zombieWait 0, .idle, true, false) := by decide
 
 
 /-! ## The download call site (`wholesym/src/downloader.rs:322-347`)
